@@ -97,7 +97,8 @@ func SetMulticastInterface(
 
 	if found {
 		var addr [4]byte
-		copy(addr[:], interfaceAddr)
+		// net.Interface.Addrs returns IPv4 addresses in their 16-byte form: take the 4-byte form, not the first 4 bytes.
+		copy(addr[:], interfaceAddr.To4())
 
 		if err := syscall.SetsockoptInet4Addr(
 			socket.RawFd(),
